@@ -488,9 +488,14 @@ func (r *registry) doTokenRequest(req *http.Request) (*wireToken, error) {
 		// The request carries credentials (a refresh token in its body or
 		// a Basic Authorization header) that are meant only for the token
 		// realm named by the registry, so don't let a redirect take them
-		// to some other host.
+		// to some other host, or to the same host name under another
+		// scheme (which is another port, and for a step down from https
+		// one where they'd travel in the clear). A step up from http to
+		// https is OK.
 		CheckRedirect: func(req *http.Request, via []*http.Request) error {
-			if req.URL.Host != via[0].URL.Host {
+			from := via[0].URL
+			sameScheme := req.URL.Scheme == from.Scheme || (from.Scheme == "http" && req.URL.Scheme == "https")
+			if req.URL.Host != from.Host || !sameScheme {
 				return http.ErrUseLastResponse
 			}
 			if len(via) >= 10 {
